@@ -135,20 +135,25 @@ def replay(ctx, path):
 
 MANIFEST = {
     "level_text": ("Lean 4 proof: a reconnect is a fresh watch table facing arbitrary retained client state; theorems: every re-sent subscription is answered "
-                   "(SotW and delta, any retained nonce), the ACK-shaped EDS request after CDS is answered (warming), the first delta answer brings a wildcard-type "
+                   "(SotW and delta, any retained nonce, with or without error_detail - a NACK queued when the stream broke, fix a581d69 with a witness for the old code), "
+                   "the ACK-shaped EDS request after CDS is answered (warming), the first delta answer brings a wildcard-type "
                    "client exactly to the current set from ANY retained state with explicit removal of what was deleted while away - at the level of the whole "
                    "request handler for LDS/NDS, for CDS with its forced EDS push and for the ztunnel Authorization type -, delta named types (EDS/RDS/SDS) and "
                    "on-demand WDS with retained versions, "
                    "WDS version-skip soundness on the exact generator model; registration vs. publication with Push split into publish and enqueue (no-miss for "
                    "every interleaving, witnesses for the unrepaired registration and for the reverse order inside Push); start-up model (never served before "
                    "ready / from a never-initialised context, with witnesses). Tied to /repo by differential streams through the real request/push handlers "
-                   "and the real workload generator; the registration and start-up models and the real xDS generators are observed end-to-end on a real "
-                   "DiscoveryServer (gate points, cold-start emulation, reconnects overlapping the old stream)."),
-    "level_note": ("Trusted: Lean kernel + {propext, Classical.choice, Quot.sound}; hand-written models tied by differential testing (reconn, wds, warm streams on the real "
-                   "handlers / workload generator); CDS/EDS/LDS/RDS generators are abstract in the theorems (full-set / always-answer classes) and only observed by the "
+                   "(every delivered response is compared, not only what the clients hold), the real workload generators and the real receive loop (health probe "
+                   "before the first request); the registration and start-up models and the real xDS generators are observed end-to-end on a real "
+                   "DiscoveryServer (gate points with fresh and reconnecting clients, cold-start emulation, admission refusals, reconnects overlapping the old "
+                   "stream, into a non-quiescent server, with a second fault; push slots returned after a cut)."),
+    "level_note": ("Trusted: Lean kernel + {propext, Classical.choice, Quot.sound}; hand-written models tied by differential testing (reconn, wds, warm, recv streams on the real "
+                   "handlers / workload generators / receive loop); CDS/EDS/LDS/RDS generators are abstract in the theorems (full-set / always-answer classes) and only observed by the "
                    "e2e stream; the Reg (initConnection vs Push) and Boot (start-up) models are modelled from reading and tied only by scripted observations on a fake "
                    "server (verif gate points; start-up is emulated on a synced server, bootstrap's waitForCacheSync is read, not executed) - partial for those parts; "
-                   "the Authorization type is covered through the C03 model of WorkloadRBACGenerator (wds stream, WauthTheorems.lean), the Workload type only by the wds stream; hooks pilot/pkg/xds/zz_verif_c03.go, zz_verif_c04.go, zz_verif_c05.go, "
+                   "the Authorization type is covered through the C03 model of WorkloadRBACGenerator (wds stream, WauthTheorems.lean), the Workload type only by the wds stream; "
+                   "not exercised: SDS served by istiod (gateways), knative warm-up refusal, authorize failure; the e2e reference client shares the server's xDS cache with the "
+                   "reconnected one unless a second server is used; hooks pilot/pkg/xds/zz_verif_c03.go, zz_verif_c04.go, zz_verif_c05.go, "
                    "zz_verif_e2e.go and four verifGate lines in ads.go / discovery.go."),
     "technique": "Lean 4 theorems over the shared C03/C04 models of delta/SotW bookkeeping with a reconnect operation + differential correspondence with the real Go handlers + scripted end-to-end observation",
     "design_ref": "DESIGN.md section 5 C05",
